@@ -71,7 +71,7 @@ SInit(w, h, multi, mphid, align) ==
 
 NewBar(r, vis, inmp) ==
     [tpl |-> r.tpl, msg |-> r.m0, prefix |-> r.p0, pos |-> r.pos0, len |-> r.len, fin |-> "no",
-     onfin |-> r.fin, fm |-> r.fm, tabw |-> r.tabw, pend |-> <<>>, drawn |-> FALSE,
+     onfin |-> r.fin, fm |-> r.fm, tabw |-> r.tabw, pend |-> <<>>, drawn |-> FALSE, onscr |-> <<>>,
      vis |-> vis, inmp |-> inmp, alive |-> TRUE, nh |-> 1, static |-> FALSE, mayVanish |-> FALSE]
 
 Bar(S, b) == S.bars[b]
@@ -246,23 +246,36 @@ NonBlank(rows) == SelectSeq(rows, LAMBDA row : ~IsBlank(row))
 (* A clearing paint (MultiProgress::clear) hides the whole region, static    *)
 (* blocks included; whether those come back is decided at the next paint.    *)
 LogOnly(items) == SelectSeq(items, LAMBDA it : it.k = "log")
+
+(* Static blocks directly above the live bars may or may not be counted as  *)
+(* part of the region that has to fit the terminal height: c.reg of them    *)
+(* (the last c.reg items of c.above) are.                                   *)
+TrailingStatics(items) ==
+    LET idx == {j \in 1..Len(items) : \A q \in j..Len(items) : items[q].k = "st"} IN Cardinality(idx)
+TopItems(c) == SubSeq(c.above, 1, Len(c.above) - c.reg)
+RegItems(c) == SubSeq(c.above, Len(c.above) - c.reg + 1, Len(c.above))
+RegionLines(S, c) == AboveLines(S, RegItems(c)) \o ShownLines(S, c.order)
+TopLines(S, c, blank) == AboveLines(S, IF blank THEN LogOnly(c.above) ELSE TopItems(c))
+ShownCut(S, c, blank) == IF blank THEN <<>> ELSE Cut(RegionLines(S, c), S.h, S.w)
+
 Shows(S, t, c, blank, k) ==
-    LET top == AboveLines(S, IF blank THEN LogOnly(c.above) ELSE c.above)
-        shown == IF blank THEN <<>> ELSE Cut(ShownLines(S, c.order), S.h, S.w)
-        want == TrimRows(Layout(top \o shown, S.w).rows)
+    LET want == TrimRows(Layout(TopLines(S, c, blank) \o ShownCut(S, c, blank), S.w).rows)
     IN IF S.everBottom THEN NonBlank(AllRows(t)) = NonBlank(want) ELSE AllRows(t) = want
 
 KRange(S) == {0}
 
+WithReg(S, cs) ==
+    UNION { { c @@ [reg |-> j] : j \in (IF RowsOf(AboveLines(S, c.above) \o ShownLines(S, c.order), S.w) > S.h
+                                          THEN 0..TrailingStatics(c.above) ELSE {0}) } : c \in cs }
+
 Matches(S, t, newLog, blank) ==
-    { <<c, k>> \in Cands(S, newLog) \X KRange(S) : (blank => c.V = {}) /\ Shows(S, t, c, blank, k) }
+    { <<c, k>> \in WithReg(S, Cands(S, newLog)) \X KRange(S) : (blank => c.V = {}) /\ Shows(S, t, c, blank, k) }
 
 (* Is the region cut by the terminal height in candidate c?                *)
-IsCut(S, c) == LET sl == ShownLines(S, c.order) IN Len(Cut(sl, S.h, S.w)) < Len(sl)
+IsCut(S, c) == Len(Cut(RegionLines(S, c), S.h, S.w)) < Len(RegionLines(S, c))
 
 (* Rows the expected screen occupies, blank ones included.                 *)
-ExpRows(S, c, blank, k) ==
-    RowsOf(AboveLines(S, IF blank THEN LogOnly(c.above) ELSE c.above) \o Blanks(k) \o (IF blank THEN <<>> ELSE Cut(ShownLines(S, c.order), S.h, S.w)), S.w)
+ExpRows(S, c, blank, k) == RowsOf(TopLines(S, c, blank) \o ShownCut(S, c, blank), S.w)
 
 (* C03 diagnosis: are all log lines on the screen, once, in order?         *)
 RECURSIVE SubRowsFrom(_, _, _, _)
